@@ -3,6 +3,10 @@
 // filestorage, verifier) over enumerated / sampled layouts and records one ndjson line per layout.
 // It never judges: Trace_Geometry.tla does (spec/Geometry.tla is the flat byte-array oracle).
 //
+// Every layout line also carries the real verifier's bitfield over the freshly allocated storage (vb0) and over the fully
+// written storage (vb1); the piece hashes of the metainfo are the hashes of the layout's content.  Sampled layouts add
+// zero-CONTENT chunks (layout.Zero) and crafted file names that the client's cleaner maps onto one on-disk name (layout.NC).
+//
 //	-mode byte    unit = 1 byte, calculateBlocks(bs) for bs in -bss, every (off,n) read back
 //	-mode scaled  unit = 4096/5461/8192 bytes, exported CalculateBlocks() (16 KiB), boundary reads (run-length logged)
 //	-mode rt      create -> parse -> allocate -> verify on real directory trees (and copy through Write)
@@ -46,6 +50,49 @@ type layout struct {
 	PL    int // units
 	Unit  int // bytes per unit
 	SF    bool
+	Zero  []int // unit-sized chunks (numbered from 1 along the concatenation) whose CONTENT is zero bytes
+	NC    int   // name class of the non-padding files: 0 = distinct plain names, k > 0 = namePairs[k-1] on two of them
+}
+
+// val is the content of chunk c (1-based): the chunk number, 0 for zero-content chunks.
+func (l layout) zeroSet() map[int]bool {
+	m := map[int]bool{}
+	for _, c := range l.Zero {
+		m[c] = true
+	}
+	return m
+}
+
+// namePairs: two raw path components that differ but that the client's name cleaner maps onto ONE on-disk name
+// (separator replaced by "_", names longer than 255 bytes trimmed with the extension kept, invalid UTF-8 replaced,
+// components dropped by the join) - and near misses that stay distinct.  An accepted metainfo must keep two files
+// of the torrent on two different on-disk paths.
+var namePairs = [][2][]string{
+	{{"d", "x/y.bin"}, {"d", "x_y.bin"}},
+	{{"x/y"}, {"x_y"}},
+	{{"d", strings.Repeat("n", 300) + "A.bin"}, {"d", strings.Repeat("n", 300) + "B.bin"}},
+	{{strings.Repeat("é", 140) + "1"}, {strings.Repeat("é", 140) + "2"}},
+	{{"d", "a\xffb"}, {"d", "a\uFFFDb"}},
+	{{"a\xffb"}, {"a\xfeb"}},
+	{{"d", "f"}, {"d", ".", "f"}},
+	{{"d", "f"}, {"d", "", "f"}},
+	{{"d", "same"}, {"d", "same"}},
+	{{"d", "x/y.bin"}, {"d", "x\\y.bin"}},                                              // near miss
+	{{"d", strings.Repeat("n", 200) + "A.bin"}, {"d", strings.Repeat("n", 200) + "B.bin"}}, // near miss (not trimmed)
+}
+
+// nameClassFiles: which two files get the pair (the first and the last non-padding file), nil if there are fewer than two
+func (l layout) nameClassFiles() []int {
+	var np []int
+	for i, f := range l.Files {
+		if f.Pad == 0 {
+			np = append(np, i)
+		}
+	}
+	if l.NC == 0 || l.SF || len(np) < 2 {
+		return nil
+	}
+	return []int{np[0], np[len(np)-1]}
 }
 
 func (l layout) total() int64 {
@@ -60,6 +107,18 @@ func (l layout) total() int64 {
 
 func bstr(s string) string { return strconv.Itoa(len(s)) + ":" + s }
 func bint(i int64) string  { return "i" + strconv.FormatInt(i, 10) + "e" }
+
+func (l layout) fileName(i int) []string {
+	if nf := l.nameClassFiles(); nf != nil {
+		if i == nf[0] {
+			return namePairs[l.NC-1][0]
+		}
+		if i == nf[1] {
+			return namePairs[l.NC-1][1]
+		}
+	}
+	return fileName(i, l.Files[i], l.Unit)
+}
 
 func fileName(i int, f fileSpec, unit int) []string {
 	if f.Pad == 1 {
@@ -83,7 +142,7 @@ func infoBytes(l layout, pieces []byte) []byte {
 			}
 			b.WriteString(bstr("length") + bint(int64(f.Len)*int64(l.Unit)))
 			b.WriteString(bstr("path") + "l")
-			for _, p := range fileName(i, f, l.Unit) {
+			for _, p := range l.fileName(i) {
 				b.WriteString(bstr(p))
 			}
 			b.WriteString("ee")
@@ -110,14 +169,25 @@ type memStorage struct {
 	files map[string]*memFile
 	oob   int // accesses outside [0,size)
 	pad   int // padding files opened (they must never reach the disk)
+	alias int // a name opened a second time: two files of the torrent share one on-disk file
 }
 
+// Open behaves like a file system: one name = one file (a second Open of the same name gets the SAME bytes, resized).
 func (s *memStorage) Open(name string, size int64) (storage.File, bool, error) {
-	f := &memFile{size: size, data: make([]byte, size), sto: s}
 	if strings.Contains(name, ".pad") {
 		s.pad++
 	}
-	s.files[name] = f
+	if old, ok := s.files[filepath.Clean(name)]; ok {
+		s.alias++
+		if int64(len(old.data)) < size {
+			old.data = append(old.data, make([]byte, size-int64(len(old.data)))...)
+		}
+		old.data = old.data[:size]
+		old.size = size
+		return old, true, nil
+	}
+	f := &memFile{size: size, data: make([]byte, size), sto: s}
+	s.files[filepath.Clean(name)] = f
 	return f, false, nil
 }
 func (s *memStorage) RootDir() string { return "/mem" }
@@ -209,7 +279,11 @@ func process(l layout, mode string, bss []int, rng *rand.Rand) (e ev) {
 	for i, f := range l.Files {
 		fl[i] = []int{f.Len, f.Pad}
 	}
-	e = ev{"op": "L", "mode": mode, "unit": l.Unit, "files": fl, "pl": l.PL, "sf": b2i(l.SF), "pan": 0, "hang": 0}
+	zero := l.Zero
+	if zero == nil {
+		zero = []int{}
+	}
+	e = ev{"op": "L", "mode": mode, "unit": l.Unit, "files": fl, "pl": l.PL, "sf": b2i(l.SF), "pan": 0, "hang": 0, "zero": zero, "nc": l.NC}
 	cur, _ := json.Marshal(e)
 	current.Store(string(cur))
 	stage := 1
@@ -227,7 +301,36 @@ func process(l layout, mode string, bss []int, rng *rand.Rand) (e ev) {
 	if pl > 0 {
 		np = (total + pl - 1) / pl
 	}
-	info, err := metainfo.NewInfo(infoBytes(l, make([]byte, 20*np)), true, true)
+	// the content of the torrent, from the layout alone: chunk c (1-based, unit bytes) carries the value c, zero-content
+	// chunks and padding carry 0; the piece hashes of the metainfo are the hashes of that content
+	zs := l.zeroSet()
+	padAt := make([]bool, 0, total/unit+1) // per chunk: inside a padding file
+	for _, f := range l.Files {
+		for k := 0; k < f.Len; k++ {
+			padAt = append(padAt, f.Pad == 1)
+		}
+	}
+	content := func(i int64, masked bool) []byte { // piece i; masked = what a reader sees (padding reads as zeros)
+		lo, hi := i*pl, (i+1)*pl
+		if hi > total {
+			hi = total
+		}
+		buf := make([]byte, hi-lo)
+		for j := range buf {
+			c := int((lo+int64(j))/unit) + 1
+			if zs[c] || (masked && padAt[c-1]) {
+				continue
+			}
+			buf[j] = byte(c)
+		}
+		return buf
+	}
+	hashes := make([]byte, 0, 20*np)
+	for i := int64(0); i < np; i++ {
+		h := sha1.Sum(content(i, true))
+		hashes = append(hashes, h[:]...)
+	}
+	info, err := metainfo.NewInfo(infoBytes(l, hashes), true, true)
 	if err != nil {
 		e["acc"] = 0
 		return e
@@ -243,6 +346,8 @@ func process(l layout, mode string, bss []int, rng *rand.Rand) (e ev) {
 		}
 		if l.SF {
 			idx["t"] = i + 1
+		} else if l.nameClassFiles() != nil {
+			idx[info.Files[i].Path] = i + 1 // crafted names: identity = the (cleaned) path the client derived for file i
 		} else {
 			idx[filepath.Join(append([]string{"t"}, fileName(i, f, l.Unit)...)...)] = i + 1
 		}
@@ -263,6 +368,29 @@ func process(l layout, mode string, bss []int, rng *rand.Rand) (e ev) {
 	stage = 3
 	pieces := piece.NewPieces(info, al.Files)
 	progress.Add(1)
+	// verification pass over freshly allocated (zero-filled) storage: which pieces does the real verifier report present?
+	verify := func() []int {
+		v := verifier.New()
+		progressC := make(chan verifier.Progress)
+		resultC := make(chan *verifier.Verifier, 1)
+		go v.Run(pieces, progressC, resultC)
+		var res *verifier.Verifier
+		for res == nil {
+			select {
+			case <-progressC:
+			case res = <-resultC:
+			}
+		}
+		if res.Error != nil {
+			panic("verifier: " + res.Error.Error())
+		}
+		bits := make([]int, res.Bitfield.Len())
+		for i := range bits {
+			bits[i] = b2i(res.Bitfield.Test(uint32(i)))
+		}
+		return bits
+	}
+	e["vb0"] = verify()
 
 	plen := make([]int, len(pieces))
 	secs := make([][][]int, len(pieces))
@@ -324,7 +452,9 @@ func process(l layout, mode string, bss []int, rng *rand.Rand) (e ev) {
 		buf := make([]byte, pieces[i].Length)
 		lo := int64(i) * pl
 		for j := range buf {
-			buf[j] = byte((lo+int64(j))/unit + 1)
+			if c := int((lo+int64(j))/unit) + 1; !zs[c] {
+				buf[j] = byte(c) // bytes that fall into padding are handed over as well: Write must skip them
+			}
 		}
 		func() {
 			defer func() {
@@ -340,11 +470,16 @@ func process(l layout, mode string, bss []int, rng *rand.Rand) (e ev) {
 	}
 	e["werr"] = werr
 	e["wpanic"] = wpanic
+	// verification pass over the written data: every piece must be reported present
+	stage = 55
+	e["vb1"] = verify()
+	e["alias"] = sto.alias
+	stage = 5
 	disk := make([]any, len(l.Files))
 	for i, f := range l.Files {
 		var mf *memFile
 		if f.Pad == 0 {
-			mf = sto.files[info.Files[i].Path]
+			mf = sto.files[filepath.Clean(info.Files[i].Path)]
 		}
 		switch {
 		case mf == nil && mode == "scaled":
@@ -457,6 +592,57 @@ func process(l layout, mode string, bss []int, rng *rand.Rand) (e ev) {
 	e["jobs"] = jobs
 	progress.Add(1)
 	return e
+}
+
+// zeroChunks draws the zero-content chunks of a sampled layout: none (1/3), the chunks of one whole piece, of one whole
+// non-padding file, a run, or a random subset.
+func zeroChunks(l layout, rng *rand.Rand) []int {
+	n := 0
+	for _, f := range l.Files {
+		n += f.Len
+	}
+	if n == 0 || l.PL <= 0 {
+		return nil
+	}
+	set := map[int]bool{}
+	switch rng.Intn(6) {
+	case 0, 1:
+		return nil
+	case 2: // one whole piece (and sometimes its neighbour)
+		np := (n + l.PL - 1) / l.PL
+		i := rng.Intn(np)
+		k := 1 + rng.Intn(2)
+		for c := i*l.PL + 1; c <= (i+k)*l.PL && c <= n; c++ {
+			set[c] = true
+		}
+	case 3: // one whole file
+		i := rng.Intn(len(l.Files))
+		st := 0
+		for j := 0; j < i; j++ {
+			st += l.Files[j].Len
+		}
+		for c := st + 1; c <= st+l.Files[i].Len; c++ {
+			set[c] = true
+		}
+	case 4: // a run
+		a := 1 + rng.Intn(n)
+		b := a + rng.Intn(n-a+1)
+		for c := a; c <= b; c++ {
+			set[c] = true
+		}
+	default:
+		for c := 1; c <= n; c++ {
+			if rng.Intn(2) == 0 {
+				set[c] = true
+			}
+		}
+	}
+	out := []int{}
+	for c := range set {
+		out = append(out, c)
+	}
+	sort.Ints(out)
+	return out
 }
 
 // ---------------------------------------------------------------- layout space
@@ -627,7 +813,24 @@ func roundTrip(dir string, id int, rng *rand.Rand, log logger.Logger) (e ev) {
 			fatal(err)
 		}
 		b := make([]byte, f.size)
-		rng.Read(b)
+		// content class: random bytes | all zeros (sparse / preallocated file) | a long zero run inside random bytes |
+		// zeros with a few non-zero bytes
+		switch kind := rng.Intn(6); {
+		case kind <= 2 || f.size == 0:
+			rng.Read(b)
+		case kind == 3:
+		case kind == 4:
+			rng.Read(b)
+			a := rng.Intn(len(b))
+			z := a + rng.Intn(len(b)-a+1)
+			for j := a; j < z; j++ {
+				b[j] = 0
+			}
+		default:
+			for j := 0; j < 3; j++ {
+				b[rng.Intn(len(b))] = byte(1 + rng.Intn(255))
+			}
+		}
 		content[f.rel] = b
 		if err := os.WriteFile(p, b, 0o644); err != nil {
 			fatal(err)
@@ -757,6 +960,7 @@ func roundTrip(dir string, id int, rng *rand.Rand, log logger.Logger) (e ev) {
 		cat = append(cat, content[f.rel]...)
 	}
 	hok := 1
+	zp := 0
 	for i := 0; i < int(info.NumPieces); i++ {
 		lo := i * int(pl)
 		hi := lo + int(pl)
@@ -771,8 +975,12 @@ func roundTrip(dir string, id int, rng *rand.Rand, log logger.Logger) (e ev) {
 		if !bytes.Equal(h[:], info.PieceHash(uint32(i))) {
 			hok = 0
 		}
+		if len(bytes.Trim(cat[lo:hi], "\x00")) == 0 {
+			zp++
+		}
 	}
 	e["hashok"] = hok
+	e["zp"] = zp // pieces that consist of zero bytes only (evidence)
 	os.RemoveAll(root)
 	os.RemoveAll(dest)
 	progress.Add(1)
@@ -843,11 +1051,13 @@ func main() {
 				Unit  int     `json:"unit"`
 				SF    int     `json:"sf"`
 				Mode  string  `json:"mode"`
+				Zero  []int   `json:"zero"`
+				NC    int     `json:"nc"`
 			}
 			if err := json.Unmarshal([]byte(line), &in); err != nil {
 				fatal(err)
 			}
-			l := layout{PL: in.PL, Unit: in.Unit, SF: in.SF == 1}
+			l := layout{PL: in.PL, Unit: in.Unit, SF: in.SF == 1, Zero: in.Zero, NC: in.NC}
 			for _, f := range in.Files {
 				l.Files = append(l.Files, fileSpec{Len: f[0], Pad: f[1]})
 			}
@@ -881,8 +1091,19 @@ func main() {
 		if *mode == "scaled" {
 			units = []int{4096, 5461, 8192}
 		}
-		do := func(i int64) {
+		do := func(i int64, variants bool) {
 			l := sp.at(i, units[rng.Intn(len(units))])
+			if variants {
+				// content class: zero-content chunks (a whole piece, a whole file, a run, a random subset)
+				l.Zero = zeroChunks(l, rng)
+				// name class: two non-padding files whose raw names differ but clean to one on-disk name
+				if rng.Intn(6) == 0 {
+					l.NC = 1 + rng.Intn(len(namePairs))
+					if l.nameClassFiles() == nil {
+						l.NC = 0
+					}
+				}
+			}
 			c.emit(process(l, *mode, bss, rng))
 			progress.Add(1)
 			if len(l.Files) == 1 && l.Files[0].Pad == 0 {
@@ -893,11 +1114,11 @@ func main() {
 		}
 		if *all {
 			for i := *from; i < sp.size(); i += *stride {
-				do(i)
+				do(i, false)
 			}
 		}
 		for k := 0; k < *sample; k++ {
-			do(rng.Int63n(sp.size()))
+			do(rng.Int63n(sp.size()), true)
 		}
 	case "rt":
 		if *dir == "" {
